@@ -29,7 +29,7 @@ def damage_options(size, P):
 
 def pick_tree(rng, P, allow_single=True):
     A = alphabet(P)
-    shapes = ["D2", "D3", "D4", "D1", "D2n", "DN", "DNf", "DU", "D5", "DNFC", "DS"] + (["S1"] if allow_single else [])
+    shapes = ["D2", "D3", "D4", "D1", "D2n", "DN", "DNf", "DU", "D5", "DNFC", "DS", "DM"] + (["S1"] if allow_single else [])
     while True:
         sh = rng.choice(shapes)
         k = 1 if sh == "S1" else len(SHAPES[sh])
